@@ -40,6 +40,12 @@ impl PanicInfo {
 
 thread_local! {
     static LAST_PANIC: RefCell<Option<PanicInfo>> = const { RefCell::new(None) };
+    /// set on harness threads (supervisor): panics there are harness bugs and must be seen
+    static LOUD: std::cell::Cell<bool> = const { std::cell::Cell::new(false) };
+}
+
+pub fn loud_panics_on_this_thread() {
+    LOUD.with(|l| l.set(true));
 }
 
 pub fn install_panic_hook() {
@@ -55,6 +61,9 @@ pub fn install_panic_hook() {
             .location()
             .map(|l| (l.file().to_string(), l.line()))
             .unwrap_or(("?".into(), 0));
+        if LOUD.with(|l| l.get()) {
+            eprintln!("HARNESS ERROR: harness panic at {file}:{line}: {message}");
+        }
         LAST_PANIC.with(|p| {
             *p.borrow_mut() = Some(PanicInfo {
                 message,
